@@ -141,12 +141,17 @@ package core
 //@   ensures err == nil && !rules.IsAmsterdam ==> st.gp.cumulativeUsed == old(st.gp.cumulativeUsed) + gasUsed && st.gp.remaining == old(st.gp.remaining) + (st.msg.GasLimit - gasUsed)
 //@   mutates
 //@   linear
-//@   atcall AddBalance#1 requires u256val(arg2) == ((st.msg.GasLimit - gasUsed) * old(u256val(st.msg.GasPrice))) % 115792089237316195423570985008687907853269984665640564039457584007913129639936
-//@   atcall AddBalance#1 requires st.msg.GasLimit * old(u256val(st.msg.GasPrice)) < 115792089237316195423570985008687907853269984665640564039457584007913129639936 ==> u256val(arg2) == (st.msg.GasLimit - gasUsed) * old(u256val(st.msg.GasPrice))
-//@   atcall ChargeGasLegacy#1 requires arg2 + arg3 == st.msg.GasLimit
-//@   atcall ChargeGasAmsterdam#1 requires arg4 == gasUsed && arg3 <= st.msg.GasLimit && arg2 <= st.msg.GasLimit
+//@   atcall AddBalance requires u256val(arg2) == ((st.msg.GasLimit - gasUsed) * old(u256val(st.msg.GasPrice))) % 115792089237316195423570985008687907853269984665640564039457584007913129639936
+//@   atcall AddBalance requires st.msg.GasLimit * old(u256val(st.msg.GasPrice)) < 115792089237316195423570985008687907853269984665640564039457584007913129639936 ==> u256val(arg2) == (st.msg.GasLimit - gasUsed) * old(u256val(st.msg.GasPrice))
+//@   atcall ChargeGasLegacy requires arg2 + arg3 == st.msg.GasLimit
+//@   atcall ChargeGasAmsterdam requires arg4 == gasUsed && arg3 <= st.msg.GasLimit && arg2 <= st.msg.GasLimit
 //@   modifies *st.gp
 //@   nowrap
+//@   ghostvar ncredit int = 0
+//@   ghostvar nother int = 0
+//@   oncall AddBalance: ncredit = ncredit + 1
+//@   oncall SubBalance SetBalance Transfer: nother = nother + 1
+//@   ensures ncredit <= 1 && nother == 0
 
 // ---------------------------------------------------------------------------
 // C35: intrinsic gas and calldata floor (core/state_transition.go)
@@ -213,9 +218,14 @@ package core
 //@   requires bigval(st.evm.Context.BlobBaseFee) >= 0
 //@   mutates
 //@   linear
-//@   atcall SubBalance#1 requires u256val(arg2) == st.msg.GasLimit * old(u256val(st.msg.GasPrice)) + ite(observe(IsCancun, st.evm.chainConfig, st.evm.Context.BlockNumber, st.evm.Context.Time) && blobGasOf(st) > 0, blobGasOf(st) * bigval(st.evm.Context.BlobBaseFee), 0)
-//@   atcall SubBalance#1 requires u256val(have) >= st.msg.GasLimit * ite(st.msg.GasFeeCap != nil, old(u256val(st.msg.GasFeeCap)), old(u256val(st.msg.GasPrice))) + ite(st.msg.Value != nil, old(u256val(st.msg.Value)), 0) + ite(observe(IsCancun, st.evm.chainConfig, st.evm.Context.BlockNumber, st.evm.Context.Time) && blobGasOf(st) > 0, blobGasOf(st) * old(u256val(st.msg.BlobGasFeeCap)), 0)
-//@   atcall SubBalance#1 requires u256val(arg2) < 115792089237316195423570985008687907853269984665640564039457584007913129639936
+//@   atcall SubBalance requires u256val(arg2) == st.msg.GasLimit * old(u256val(st.msg.GasPrice)) + ite(observe(IsCancun, st.evm.chainConfig, st.evm.Context.BlockNumber, st.evm.Context.Time) && blobGasOf(st) > 0, blobGasOf(st) * bigval(st.evm.Context.BlobBaseFee), 0)
+//@   atcall SubBalance requires u256val(have) >= st.msg.GasLimit * ite(st.msg.GasFeeCap != nil, old(u256val(st.msg.GasFeeCap)), old(u256val(st.msg.GasPrice))) + ite(st.msg.Value != nil, old(u256val(st.msg.Value)), 0) + ite(observe(IsCancun, st.evm.chainConfig, st.evm.Context.BlockNumber, st.evm.Context.Time) && blobGasOf(st) > 0, blobGasOf(st) * old(u256val(st.msg.BlobGasFeeCap)), 0)
+//@   atcall SubBalance requires u256val(arg2) < 115792089237316195423570985008687907853269984665640564039457584007913129639936
+//@   ghostvar ndebit int = 0
+//@   ghostvar nother int = 0
+//@   oncall SubBalance: ndebit = ndebit + 1
+//@   oncall AddBalance SetBalance Transfer: nother = nother + 1
+//@   ensures nother == 0 && ndebit <= 1 && (err == nil ==> ndebit == 1)
 
 // ---------------------------------------------------------------------------
 // C31/C32: the transaction driver (core/state_transition.go: execute)
@@ -325,11 +335,16 @@ package core
 //@   requires observe(Rules, st.evm.chainConfig, st.evm.Context.BlockNumber, st.evm.Context.Random != nil, st.evm.Context.Time).IsLondon ==> st.evm.Context.BaseFee != nil
 //@   requires len(st.msg.BlobHashes) > 0 ==> st.msg.BlobGasFeeCap != nil && st.evm.Context.BlobBaseFee != nil
 //@   ensures err == nil ==> res != nil && res.UsedGas <= st.msg.GasLimit && res.MaxUsedGas >= res.UsedGas && res.MaxUsedGas <= st.msg.GasLimit
-//@   atcall AddBalance#1 requires old(observe(Rules, st.evm.chainConfig, st.evm.Context.BlockNumber, st.evm.Context.Random != nil, st.evm.Context.Time).IsLondon) ==> u256val(arg2) == gasUsed * (old(u256val(st.msg.GasPrice)) - old(bigval(st.evm.Context.BaseFee)))
-//@   atcall AddBalance#1 requires !old(observe(Rules, st.evm.chainConfig, st.evm.Context.BlockNumber, st.evm.Context.Random != nil, st.evm.Context.Time).IsLondon) ==> u256val(arg2) == gasUsed * old(u256val(st.msg.GasPrice))
+//@   atcall AddBalance requires old(observe(Rules, st.evm.chainConfig, st.evm.Context.BlockNumber, st.evm.Context.Random != nil, st.evm.Context.Time).IsLondon) ==> u256val(arg2) == gasUsed * (old(u256val(st.msg.GasPrice)) - old(bigval(st.evm.Context.BaseFee)))
+//@   atcall AddBalance requires !old(observe(Rules, st.evm.chainConfig, st.evm.Context.BlockNumber, st.evm.Context.Random != nil, st.evm.Context.Time).IsLondon) ==> u256val(arg2) == gasUsed * old(u256val(st.msg.GasPrice))
 //@   modifies st.gasRemaining, *st.gp, *st.evm.AccessEvents, st.evm.depth, st.evm.readOnly, st.evm.returnData, *st.evm.precompileCache, typeof authTracking
 //@   mutates
 //@   linear
+//@   ghostvar ntip int = 0
+//@   ghostvar nother int = 0
+//@   oncall AddBalance: ntip = ntip + 1
+//@   oncall SubBalance SetBalance: nother = nother + 1
+//@   ensures ntip <= 1 && nother == 0
 
 //@ func (r *ExecutionResult) Failed() (f bool)
 //@   serves C37
@@ -353,9 +368,9 @@ package core
 //@   oncall SubBalance: debited = debited + u256val(arg2); ndebit = ndebit + 1
 //@   oncall AddBalance: credited = credited + u256val(arg2); ncredit = ncredit + 1
 //@   ensures debited == old(u256val(amount)) && credited == old(u256val(amount)) && ndebit == 1 && ncredit == 1
-//@   atcall SubBalance#1 requires arg1 == sender
-//@   atcall AddBalance#1 requires arg1 == recipient
-//@   atcall AddBalance#1 requires ndebit == 1
+//@   atcall SubBalance requires arg1 == sender
+//@   atcall AddBalance requires arg1 == recipient
+//@   atcall AddBalance requires ndebit == 1
 
 //@ func CanTransfer(db vm.StateDB, addr common.Address, amount *uint256.Int) (ok bool)
 //@   serves C32
